@@ -6,6 +6,7 @@ import (
 	"encoding/json"
 	"fmt"
 	"math/big"
+	"runtime/debug"
 	"strings"
 	"time"
 
@@ -281,8 +282,111 @@ type runResult struct {
 }
 
 const (
-	stallGrace = 100 * time.Millisecond
+	stallGrace       = 100 * time.Millisecond
+	honestStallGrace = 2 * time.Second
+	// The stall condition must hold on this many consecutive 2 ms ticks:
+	// xport.Duplex.Stalled is also true in the instant between a party
+	// handing its last buffer to p2p.Conn's writer goroutine and that
+	// goroutine writing it, if the party computed for longer than the grace
+	// before (base OTs on a loaded machine).
+	stallTicks = 8
 )
+
+// runPair is xport.RunPair with a stall condition that has to persist.
+func runPair(d *xport.Duplex, a, b func() ([]*big.Int, error),
+	grace, budget time.Duration) xport.PairOutcome {
+
+	type res struct {
+		who int
+		r   xport.PartyResult
+	}
+	ch := make(chan res, 2)
+	start := func(who int, f func() ([]*big.Int, error)) {
+		go func() {
+			var r xport.PartyResult
+			defer func() {
+				if p := recover(); p != nil {
+					r.Panic = fmt.Sprintf("%v\n%s", p, trimStack(debug.Stack()))
+				}
+				r.Done = true
+				ch <- res{who, r}
+			}()
+			r.Vals, r.Err = f()
+		}()
+	}
+	start(0, a)
+	start(1, b)
+
+	var out xport.PairOutcome
+	deadline := time.Now().Add(budget)
+	pending := 2
+	tick := time.NewTicker(2 * time.Millisecond)
+	defer tick.Stop()
+	var closedAt time.Time
+	seen := 0
+	for pending > 0 {
+		select {
+		case r := <-ch:
+			pending--
+			seen = 0
+			if r.who == 0 {
+				out.A = r.r
+			} else {
+				out.B = r.r
+			}
+			if r.r.Failed() {
+				d.Close()
+				if closedAt.IsZero() {
+					closedAt = time.Now()
+				}
+			}
+		case <-tick.C:
+			now := time.Now()
+			if !closedAt.IsZero() {
+				if now.Sub(closedAt) > 5*time.Second {
+					return out // a party does not return: give up on it
+				}
+				continue
+			}
+			stalled := false
+			if pending == 2 {
+				stalled = d.Stalled(grace)
+			} else if out.A.Done {
+				stalled = d.OneSidedStall(0, grace)
+			} else {
+				stalled = d.OneSidedStall(1, grace)
+			}
+			if stalled {
+				seen++
+			} else {
+				seen = 0
+			}
+			if seen >= stallTicks {
+				out.Stalled = true
+				d.Close()
+				closedAt = now
+			} else if now.After(deadline) {
+				out.TimedOut = true
+				d.Close()
+				closedAt = now
+			}
+		}
+	}
+	return out
+}
+
+func trimStack(st []byte) string {
+	lines := strings.Split(string(st), "\n")
+	var keep []string
+	for i := 0; i < len(lines) && len(keep) < 24; i++ {
+		l := lines[i]
+		if strings.Contains(l, "runtime/debug") || strings.Contains(l, "runtime/panic") {
+			continue
+		}
+		keep = append(keep, l)
+	}
+	return strings.Join(keep, "\n")
+}
 
 var sessionBudget = 20 * time.Second
 
@@ -357,7 +461,11 @@ func execute(p *prepared, corr *Corruption, record bool) (*runResult, error) {
 	}
 
 	res := &runResult{GMarks: gOT, EMarks: eOT}
-	res.Pair = xport.RunPair(d, gf, ef, stallGrace, sessionBudget)
+	grace := stallGrace
+	if corr == nil {
+		grace = honestStallGrace
+	}
+	res.Pair = runPair(d, gf, ef, grace, sessionBudget)
 	d.Close()
 	if record {
 		res.Trans[0] = d.Transcript(0)
